@@ -450,7 +450,9 @@ Verdict run_case(Case const& c, Ctx& ctx)
 {
 	std::string const prop = ctx.opt.prop;
 	Topology topo = Topology::from(c, 2, 3);
-	for (auto& n : topo.nodes) { n.fam = 0; n.nat_ext = -1; }
+	// NATs only for C19 (the capture must show the true source address also for a segment that is retransmitted after a
+	// NAT rewrote the packet object); NAT views themselves are C13's business
+	for (auto& n : topo.nodes) { n.fam = 0; if (prop != "C19") n.nat_ext = -1; }
 	int const nn = int(topo.nodes.size());
 	std::vector<ConnSpec> specs(MAXC);
 	for (auto const& r : c.recs)
@@ -609,7 +611,13 @@ Verdict run_case(Case const& c, Ctx& ctx)
 			for (std::size_t ei = 0; ei < w.events.size(); ++ei)
 			{
 				TapEvent const& e = w.events[ei];
-				if (e.kind == 0 && w.taps[std::size_t(e.tap)].role == 0 && (e.type == 5 || e.type == 4)) wire.push_back({e.from, e.type, e.payload, e.hash, e.t, ei});
+				if (e.kind == 0 && w.taps[std::size_t(e.tap)].role == 0 && (e.type == 5 || e.type == 4))
+				{
+					// the true source: the address of the node whose outgoing route this tap heads (a retransmitted packet object may
+					// already carry the NAT's address in its 'from' field), and the port the packet carries
+					TapInfo const& ti = w.taps[std::size_t(e.tap)];
+					wire.push_back({udp::endpoint(w.addr(ti.node, ti.addr), e.from.port()), e.type, e.payload, e.hash, e.t, ei});
+				}
 			}
 			pairs_copy = R.pairs;
 		}
@@ -679,7 +687,7 @@ Verdict run_case(Case const& c, Ctx& ctx)
 		for (auto const& kv : topo.mtu) if (kv.second != 1475) mtu_nondefault = true;
 		if (w.overflow) inconclusive = true;
 	}
-	std::string err19; long long pcap_tcp_pairs_bidir = 0, pcap_retx = 0, pcap_udp = 0, pcap_records = 0; bool crosses_second = false;
+	std::string err19; long long pcap_tcp_pairs_bidir = 0, pcap_retx = 0, pcap_retx_nat = 0, pcap_udp = 0, pcap_records = 0; bool crosses_second = false;
 	if (c19 && !inconclusive)
 	{
 		std::vector<unsigned char> file;
@@ -735,7 +743,11 @@ Verdict run_case(Case const& c, Ctx& ctx)
 			std::uint32_t& sum = seqsum[{pi, dir}];
 			if (r.tcp_seq != sum) { err19 = fmt("record %zu: TCP sequence number %u, but %u payload bytes were transmitted before in that direction of the connection", i, r.tcp_seq, sum); break; }
 			sum += std::uint32_t(r.payload.size());
-			if (!r.payload.empty()) { dirs_with_data.insert({pi, dir}); if (!seen_hash[{pi, dir}].insert(e.hash).second) ++pcap_retx; }
+			if (!r.payload.empty())
+			{
+				dirs_with_data.insert({pi, dir});
+				if (!seen_hash[{pi, dir}].insert(e.hash).second) { ++pcap_retx; if (topo.nodes[std::size_t(topo.node_of(e.from.address()))].nat_ext >= 0) ++pcap_retx_nat; }
+			}
 		}
 		std::map<std::size_t, int> bid; for (auto const& d : dirs_with_data) ++bid[d.first];
 		for (auto const& kv : bid) if (kv.second == 2) ++pcap_tcp_pairs_bidir;
@@ -764,7 +776,7 @@ Verdict run_case(Case const& c, Ctx& ctx)
 	}
 	else if (prop == "C19")
 	{
-		if (pcap_retx) ctx.label("pcap_retransmission"); if (pcap_udp) ctx.label("pcap_udp"); if (pcap_tcp_pairs_bidir >= 2) ctx.label("pcap_two_bidirectional_connections");
+		if (pcap_retx) ctx.label("pcap_retransmission"); if (pcap_retx_nat) ctx.label("pcap_retransmission_behind_nat"); if (pcap_udp) ctx.label("pcap_udp"); if (pcap_tcp_pairs_bidir >= 2) ctx.label("pcap_two_bidirectional_connections");
 		if (crosses_second) ctx.label("pcap_crosses_second"); if (R.eof_seen) ctx.label("pcap_closing_segment");
 		for (auto const& u : usends) if (!u.on_wire) { ctx.label("udp_not_on_wire"); break; }
 		v.nontrivial = pcap_tcp_pairs_bidir >= 2 && pcap_retx >= 1 && pcap_udp >= 1;
@@ -917,6 +929,9 @@ rc::Gen<Case> gen_c19()
 		[](std::tuple<long long, long long, std::vector<long long>, std::vector<long long>, std::vector<Rec>, long long, long long, std::vector<Rec>, std::vector<Rec>> t) {
 			Case c;
 			c.recs.push_back(mk("node", {0})); c.recs.push_back(mk("node", {0}));
+			// NAT in front of node 0 and / or node 1 (the scripted drops happen behind it)
+			if (std::get<6>(t) % 3 == 1 || std::get<6>(t) % 3 == 2) c.recs.push_back(mk("nat", {0, 0}));
+			if (std::get<6>(t) % 3 == 2 || std::get<6>(t) == 9) c.recs.push_back(mk("nat", {1, 1}));
 			c.recs.push_back(mk("qnet", {-1, -1, std::get<0>(t), std::get<1>(t), 0}));
 			auto const& f0 = std::get<2>(t); auto const& f1 = std::get<3>(t);
 			c.recs.push_back(mk("fault", {0, 1, 0, 0})); c.recs.push_back(mk("fault", {0, 1, 0, 0})); c.recs.push_back(mk("fault", {0, 1, 1, 0})); // pass two droppable packets, drop the next: a retransmission is likely
